@@ -782,6 +782,8 @@ pub struct U2fRegOut {
     pub cert: Vec<u8>,
     pub signature: Vec<u8>,
     pub encoded: Vec<u8>,
+    /// the same response encoded after the token firmware attached an attestation certificate
+    pub encoded_with_cert: Vec<u8>,
     pub parsed_challenge: Vec<u8>,
     pub parsed_application: Vec<u8>,
 }
@@ -1477,11 +1479,21 @@ async fn run_op(
                         cert: r.attestation_certificate.clone(),
                         signature: r.signature.clone(),
                         encoded: Vec::new(),
+                        encoded_with_cert: Vec::new(),
                         parsed_challenge: pc,
                         parsed_application: pa,
                     };
+                    // a token that attests: the firmware fills the public certificate field (the
+                    // library leaves it empty) and encodes again
+                    let with_cert = passkey_types::u2f::RegisterResponse {
+                        public_key: r.public_key,
+                        key_handle: r.key_handle.clone(),
+                        attestation_certificate: sim_certificate(r.key_handle.len()),
+                        signature: r.signature.clone(),
+                    };
+                    let encoded_with_cert = with_cert.encode();
                     let encoded = r.encode();
-                    OpResult::U2fReg(Ok(U2fRegOut { encoded, ..out }))
+                    OpResult::U2fReg(Ok(U2fRegOut { encoded, encoded_with_cert, ..out }))
                 }
             }
         }
@@ -1592,6 +1604,14 @@ async fn run_op(
             OpResult::SetCounter(ok)
         }
     }
+}
+
+/// a stand-in X.509 blob (DER SEQUENCE header + filler) whose length varies with the key handle
+pub fn sim_certificate(handle_len: usize) -> Vec<u8> {
+    let n = 5 + handle_len % 90;
+    let mut v = vec![0x30, n as u8];
+    v.extend((0..n).map(|i| 0xC0 ^ (i as u8)));
+    v
 }
 
 fn op_kind_name(k: &OpKind) -> &'static str {
